@@ -23,7 +23,9 @@
 //    * dedicated sub-case: a stopped positron whose only at-rest outcome needs 2 secondaries,
 //      with c = 1 and c = 2.
 //  part B  initializer capacity Q in {1,2,3,4,6}, slots {1,2}, track order {none, init_charge,
-//    reindex_status}:
+//    reindex_status}; secondary stack at its default factor 3 and, for slots 2 and Q in {2,3},
+//    also starved to 2 / 3 entries (roots init.s2.q<Q>.c<c>: both limits tight together; the
+//    ledger counts only the secondaries of interactions whose allocation succeeded):
 //    * a Stepper call throws celeritas::RuntimeError (and nothing else: no ASan report, no
 //      other exception, reported `queued` never exceeds Q) IF AND ONLY IF the ledger says that
 //      the pending initializers exceed Q:  need_k = queued_{k-1} - tracks started in call k
@@ -601,17 +603,23 @@ static void part_initializer(vf::Run& R)
     for (auto order : orders)
      for (unsigned slots : {1u, 2u})
         for (unsigned cap : {1u, 2u, 3u, 4u, 6u})
+         // scap: secondary stack capacity; 0 = the default factor 3 (never starved).  For slots 2
+         // and Q in {2,3} also a STARVED stack of 2 / 3 entries: both limits tight together
+         for (unsigned scap : {0u, 2u, 3u})
             for (auto const& pc : prims)
             {
+                if (scap && !(slots == 2 && (cap == 2 || cap == 3)))
+                    continue;
                 if (!R.mine(outer++))
                     continue;
                 if (R.expired())
                     return;
                 int const bound = thorough ? 3 : 2;
+                std::string const sc = scap ? fmt(".c%u", scap) : std::string();
                 std::string root = order == TrackOrder::none
-                                       ? fmt("init.s%u.q%u:%s", slots, cap, pc.id.c_str())
-                                       : fmt("init.s%u.q%u.o%d:%s", slots, cap, int(order),
-                                             pc.id.c_str());
+                                       ? fmt("init.s%u.q%u%s:%s", slots, cap, sc.c_str(), pc.id.c_str())
+                                       : fmt("init.s%u.q%u%s.o%d:%s", slots, cap, sc.c_str(),
+                                             int(order), pc.id.c_str());
                 if (R.replay() && R.replay_case().compare(0, root.size() + 1, root + "|") != 0)
                     continue;
                 LoopConfig cfg;
@@ -619,6 +627,8 @@ static void part_initializer(vf::Run& R)
                 cfg.along = AlongStep::linear;
                 cfg.slots = slots;
                 cfg.init_capacity = cap;
+                if (scap)
+                    cfg.secondary_stack_factor = (scap + 0.5) / slots;
                 cfg.track_order = order;
                 cfg.xs_gamma = 5.0;
                 cfg.xs_electron = 8.0;
@@ -627,7 +637,9 @@ static void part_initializer(vf::Run& R)
                 int asan0 = asan_errors();
                 // reference event: its first interaction emits as many secondaries as Q holds,
                 // so that after a reset BOTH the slots and the initializer queue are used again
-                Outcome const ref_first = cap >= 3 ? Outcome::scatter_three : Outcome::scatter_plus_one;
+                Outcome const ref_first = (cap >= 3 && (scap == 0 || scap >= 3))
+                                              ? Outcome::scatter_three
+                                              : Outcome::scatter_plus_one;
                 uint64_t ref_hash;
                 {
                     auto stp = P->make_stepper();
@@ -822,6 +834,9 @@ static void part_initializer(vf::Run& R)
                         std::vector<long> delta(ob.calls + 1, 0);
                         for (auto const& q : ch.log)
                         {
+                            if (q.alloc_failed)
+                                R.tag(ob.threw ? "initializer:starved-stack-failure-in-overflowing-history"
+                                               : "initializer:starved-stack-failure-in-fitting-history");
                             if (q.alloc_failed || q.call >= delta.size())
                                 continue;
                             auto menu = feasible_outcomes(*P->shared, q.q.particle, q.q.energy);
